@@ -448,13 +448,28 @@ def gen_mn(streams, max_n=6, min_n=2, max_card=3, max_joint=4096, connected=True
     # a second, different factor over an already used scope (e.g. a prior and a soft-evidence factor on one variable)
     if r.random() < 0.3 and factors:
         for f in r.sample(factors, min(len(factors), r.randint(1, 2))):
-            factors.append(rand_factor(shuffled(r, f["scope"])))
+            g = rand_factor(shuffled(r, f["scope"]))
+            if sorted(g["values"]) != sorted(f["values"]):
+                factors.append(g)
     # repeated equal factors
     if dup_rate:
         for f in list(factors):
             if r.random() < dup_rate:
                 g = {"scope": list(f["scope"]), "values": list(f["values"])}
                 factors.append(g)
+    if not dup_rate:
+        # no two value-equal factors unless asked for (a FactorGraph cannot hold two equal factor nodes)
+        seen, uniq = set(), []
+        for f in factors:
+            order = sorted(range(len(f["scope"])), key=lambda i_: f["scope"][i_])
+            key = (tuple(sorted(f["scope"])), tuple(f["values"]) if order == list(range(len(order))) else None, len(f["values"]))
+            if len(f["scope"]) == 1:
+                key = (tuple(f["scope"]), tuple(f["values"]))
+                if key in seen:
+                    continue
+                seen.add(key)
+            uniq.append(f)
+        factors = uniq
     factors = shuffled(r, factors)
     rl = streams.s("labels")
     labels, label_mode = gen_labels(rl, n, label_mode)
